@@ -411,6 +411,8 @@ class Executor:
             return r.term == z3.StringVal(l)
         if isinstance(l, StrV) and isinstance(r, StrV) and l.term is not None and r.term is not None:
             return l.term == r.term
+        if (isinstance(l, StrV) and isinstance(r, (StrV, str))) or (isinstance(r, StrV) and isinstance(l, (StrV, str))):
+            return fresh("str.eq", z3.BoolSort())                 # opaque contents: equality is total, its value unknown
         l2, r2 = self.num2(l, r)
         if z3.is_expr(l2) and z3.is_expr(r2):
             if l2.sort() != r2.sort():
@@ -518,8 +520,35 @@ class Executor:
     def _floordiv(self, l, r):
         raise Unsupported("// with possibly negative divisor")
 
+    strict_fstrings = False
+
     def ev_JoinedStr(self, e, st):
-        return [(StrV(note="fstring"), st)]
+        """f-string: contents opaque.  With strict_fstrings the embedded expressions are evaluated (their exceptions and
+        obligations count) and a numeric format spec (`:.3E`, `:.2g`, `:d`, ...) applied to a non-number raises."""
+        if not self.strict_fstrings:
+            return [(StrV(note="fstring"), st)]
+        outs = [(None, st)]
+        for part in e.values:
+            if not isinstance(part, ast.FormattedValue):
+                continue
+            nxt = []
+            for _, s in outs:
+                if isinstance(_, Raised):
+                    nxt.append((_, s))
+                    continue
+                for v, s2 in self.ev(part.value, s):
+                    if isinstance(v, Raised):
+                        nxt.append((v, s2))
+                        continue
+                    spec = "".join(c.value for c in part.format_spec.values if isinstance(c, ast.Constant)) if part.format_spec is not None else ""
+                    if spec and spec[-1] in "eEfFgGdn%xXob" and part.conversion == -1:
+                        dv = s2.deref(v)
+                        if not (z3.is_expr(dv) and (z3.is_int(dv) or z3.is_real(dv))) and not isinstance(dv, (int, float)):
+                            nxt.append((Raised(Exc("TypeError|ValueError", getattr(part, "lineno", 0))), s2))
+                            continue
+                    nxt.append((None, s2))
+            outs = nxt
+        return [((v if isinstance(v, Raised) else StrV(note="fstring")), s) for v, s in outs]
 
     def ev_Tuple(self, e, st):
         return [((v if isinstance(v, Raised) else TupleV(v)), s) for v, s in self.ev_list(e.elts, st)]
@@ -686,6 +715,22 @@ class Executor:
                 raise Unsupported("dictcomp with re-keyed entries")
             val = self.lift(self._pure(e.value, sub))
             return st.alloc(DictV(z3.Lambda([k], z3.And(d.has(k), cond)), z3.Lambda([k], val), d.ksort, val.sort()))
+        kp = self._as_keypred(src, st)
+        if kp is not None and isinstance(g.target, ast.Name):
+            # {k: f(k) for k in <list of keys taken from a dict, possibly filtered>}
+            ksort, lam = kp
+            kname = g.target.id
+            k = fresh("ck", ksort)
+            sub = st.clone()
+            sub.frames.append({"__closure__": st.loc, kname: k})
+            sub.pc.append(z3.Select(lam, k))
+            cond = z3.BoolVal(True)
+            for c in g.ifs:
+                cond = z3.And(cond, self.truthy(self._pure(c, sub), sub))
+            if not (isinstance(e.key, ast.Name) and e.key.id == kname):
+                raise Unsupported("dictcomp with re-keyed entries")
+            val = self.lift(self._pure(e.value, sub))
+            return st.alloc(DictV(z3.Lambda([k], z3.And(z3.Select(lam, k), cond)), z3.Lambda([k], val), ksort, val.sort()))
         if isinstance(src, tuple) and src[0] == "range":
             lo, hi = src[1], src[2]
             iname = g.target.id
@@ -700,6 +745,42 @@ class Executor:
             val = self.lift(self._pure(e.value, sub))
             return st.alloc(DictV(z3.Lambda([i], cond), z3.Lambda([i], val), z3.IntSort(), val.sort()))
         raise Unsupported("dict comprehension source")
+
+    def _as_keypred(self, src, st: State):
+        """(key sort, characteristic predicate as a z3 array) of a list of keys taken from a dict: list(d.keys()), d.keys(),
+        sorted(...) of one, or a comprehension that filters one.  Order is not modelled."""
+        if isinstance(src, tuple) and src and src[0] == "keypred":
+            return src[1], src[2]
+        if isinstance(src, tuple) and src and src[0] in ("keys_snapshot", "keys"):
+            d = src[1] if src[0] == "keys_snapshot" else st.deref(src[1])
+            if isinstance(d, DictV):
+                k = fresh("kp", d.ksort)
+                return d.ksort, z3.Lambda([k], d.has(k))
+        return None
+
+    def ev_ListComp(self, e, st):
+        """[k for k in <keys of a dict> if c(k)]: the filtered key list (membership only)"""
+        if len(e.generators) != 1:
+            raise Unsupported("nested list comprehension")
+        g = e.generators[0]
+        outs = []
+        for src, s in self.ev(g.iter, st):
+            if isinstance(src, Raised):
+                outs.append((src, s))
+                continue
+            kp = self._as_keypred(src, s)
+            if kp is None or not (isinstance(g.target, ast.Name) and isinstance(e.elt, ast.Name) and e.elt.id == g.target.id):
+                raise Unsupported(f"list comprehension `{ast.unparse(e)[:60]}`")
+            ksort, lam = kp
+            k = fresh("lk", ksort)
+            sub = s.clone()
+            sub.frames.append({"__closure__": s.loc, g.target.id: k})
+            sub.pc.append(z3.Select(lam, k))
+            cond = z3.BoolVal(True)
+            for c in g.ifs:
+                cond = z3.And(cond, self.truthy(self._pure(c, sub), sub))
+            outs.append((("keypred", ksort, z3.Lambda([k], z3.And(z3.Select(lam, k), cond))), s))
+        return outs
 
     def _pure(self, e, st: State):
         """evaluate an expression that must not fork or raise"""
@@ -927,6 +1008,25 @@ class Executor:
                 if isinstance(o, str) and name in ("strip", "lower", "upper") and not args:
                     return [(getattr(o, name)(), st)]
                 return [(StrV(note=name), st)]
+            # total string primitives on opaque strings: never raise for str arguments; results are unconstrained but well-typed
+            if name in ("startswith", "endswith", "isdigit", "isalpha", "isalnum", "isspace", "isnumeric", "isdecimal", "isidentifier", "islower", "isupper"):
+                return [(fresh(f"str.{name}", z3.BoolSort()), st)]
+            if name in ("find", "rfind", "count"):
+                r = fresh(f"str.{name}", z3.IntSort())
+                st.pc.append(r >= (-1 if name != "count" else 0))
+                return [(r, st)]
+            if name in ("split", "rsplit", "splitlines"):
+                # a list of strings: at least one part when a separator is given, at most maxsplit + 1 parts
+                L = ListV(fresh("str.parts", z3.ArraySort(z3.IntSort(), z3.IntSort())), z3.IntVal(0), fresh("str.nparts", z3.IntSort()), wrap=lambda v: StrV(note="part"))
+                has_sep = name != "splitlines" and (len(args) >= 1 or "sep" in kwargs) and not (len(args) >= 1 and args[0] is NONE)
+                st.pc.append(L.hi >= (1 if has_sep else 0))
+                mx = args[1] if len(args) >= 2 else kwargs.get("maxsplit")
+                if mx is not None and (z3.is_expr(mx) or isinstance(mx, int)):
+                    mxv = self.lift(mx)
+                    st.pc.append(z3.Implies(mxv >= 0, L.hi <= mxv + 1))
+                return [(st.alloc(L), st)]
+            if name in ("partition", "rpartition") and len(args) == 1:
+                return [(TupleV([StrV(note="head"), StrV(note="sep"), StrV(note="tail")]), st)]
         raise Unsupported(f"method {name} on {type(o).__name__} L{line}")
 
     def call_funcv(self, f: FuncV, args, kwargs, starkw, st: State, node):
